@@ -676,6 +676,78 @@ def lean_str(s):
     return json.dumps(s)
 
 
+# ---- return-value readers: every integer reader of MockCheckedActualCall and MockSupport and the getter it ends in
+RET_WORDS = ["Int", "UnsignedInt", "LongInt", "UnsignedLongInt", "LongLongInt", "UnsignedLongLongInt"]
+RET_CTYPE = {"int": "int", "unsigned int": "uint", "long int": "long", "unsigned long int": "ulong",
+             "cpputest_longlong": "llong", "cpputest_ulonglong": "ullong"}
+
+
+def ret_readers():
+    """rows (level, reader, kind of the declared return type, form, target):
+    form "plain": body is `return returnValue().<target>();` (target = a MockNamedValue getter);
+    form "orDefault": body returns the default exactly when `hasReturnValue()` is false, otherwise `<target>()`
+    (target = a plain reader of the same level).  A body of another shape is reported with its normalised text as target
+    (the table then differs from the required one).  Also shape-checked: the `andReturnValue(<integer type>)` overloads store
+    their argument under the name "returnValue", `hasReturnValue` = the name is not empty, the two `returnValue()`."""
+    import re
+    from .common import read, strip_comments, function_body
+    rows = []
+    for level, src, cls, plain_name, form_od in (
+            ("call", "src/CppUTestExt/MockActualCall.cpp", "MockCheckedActualCall", "return%sValue",
+             r"if\(!hasReturnValue\(\)\)\{return(\w+);\}return(\w+)\(\);"),
+            ("support", "src/CppUTestExt/MockSupport.cpp", "MockSupport", None,
+             r"if\(hasReturnValue\(\)\)\{return(\w+)\(\);\}return(\w+);")):
+        c = strip_comments(read(src))
+        for w in RET_WORDS:
+            lw = w[0].lower() + w[1:]
+            for form, reader in (("plain", (plain_name % w) if plain_name else lw + "ReturnValue"),
+                                 ("orDefault", "return%sValueOrDefault" % w)):
+                m = re.search(r"([\w ]+?)\s+%s::%s\s*\(\s*([\w ]*?)\s*\)\s*\{" % (cls, reader), c)
+                if not m:
+                    raise TranslateError("%s::%s not found" % (cls, reader))
+                rt = re.sub(r"\s+", " ", m.group(1)).strip()
+                if rt not in RET_CTYPE:
+                    raise TranslateError("%s::%s returns the unmodelled type %r" % (cls, reader, rt))
+                body = nows_outside_strings(function_body(c, re.escape(m.group(0)[:-1]).replace("\\ ", "\\s*") + r"\{"))
+                target = body
+                if form == "plain":
+                    mm = re.fullmatch(r"returnreturnValue\(\)\.(\w+)\(\);", body)
+                    if mm:
+                        target = mm.group(1)
+                else:
+                    mm = re.fullmatch(form_od, body)
+                    if mm:
+                        param = (m.group(2).split() or ["?"])[-1]
+                        dflt, callee = (mm.group(1), mm.group(2)) if level == "call" else (mm.group(2), mm.group(1))
+                        if dflt == param:
+                            target = callee
+                rows.append((level, reader, RET_CTYPE[rt], form, target))
+    # shape checks of what the table takes for granted
+    e = strip_comments(read("src/CppUTestExt/MockExpectedCall.cpp"))
+    for t in RET_CTYPE:
+        m = re.search(r"MockCheckedExpectedCall::andReturnValue\s*\(\s*%s\s+value\s*\)\s*\{" % t.replace(" ", r"\s+"), e)
+        if not m:
+            raise TranslateError("MockCheckedExpectedCall::andReturnValue(%s value) not found" % t)
+        body = nows_outside_strings(function_body(e, re.escape(m.group(0)[:-1]).replace("\\ ", "\\s*") + r"\{"))
+        if body != 'returnValue_.setName("returnValue");returnValue_.setValue(value);return*this;':
+            raise TranslateError("andReturnValue(%s) does not store its argument as the return value: `%s`" % (t, body[:200]))
+    a = strip_comments(read("src/CppUTestExt/MockActualCall.cpp"))
+    sup = strip_comments(read("src/CppUTestExt/MockSupport.cpp"))
+    for text, sig, want in (
+            (a, r"bool\s+MockCheckedActualCall::hasReturnValue\s*\(\s*\)\s*\{", "return!returnValue().getName().isEmpty();"),
+            (a, r"MockNamedValue\s+MockCheckedActualCall::returnValue\s*\(\s*\)\s*\{",
+             'checkExpectations();if(matchingExpectation_)returnmatchingExpectation_->returnValue();returnMockNamedValue("no return value");'),
+            (e, r"MockNamedValue\s+MockCheckedExpectedCall::returnValue\s*\(\s*\)\s*\{", "returnreturnValue_;"),
+            (sup, r"MockNamedValue\s+MockSupport::returnValue\s*\(\s*\)\s*\{",
+             'if(lastActualFunctionCall_)returnlastActualFunctionCall_->returnValue();returnMockNamedValue("");'),
+            (sup, r"bool\s+MockSupport::hasReturnValue\s*\(\s*\)\s*\{",
+             "if(lastActualFunctionCall_)returnlastActualFunctionCall_->hasReturnValue();returnfalse;")):
+        got = nows_outside_strings(function_body(text, sig))
+        if got != want:
+            raise TranslateError("return-value plumbing changed shape: %s is now `%s`" % (sig[:60], got[:200]))
+    return rows
+
+
 # ---- typed entry points of the mock API through which an integer parameter value is created
 CPP_KIND = {"int": "int", "unsigned int": "uint", "long int": "long", "unsigned long int": "ulong",
             "cpputest_longlong": "llong", "cpputest_ulonglong": "ullong"}
@@ -830,6 +902,10 @@ def generate():
             "    parameter type; the body stores `value` through the `setValue` overload of that type) -/",
             "def cppExplicit : List (String × String × String) :=",
             "  [ " + ",\n    ".join("(%s, %s, %s)" % tuple(map(lean_str, x)) for x in explicit) + " ]", ""]
+    out += ["/-- integer return-value readers: (level: call = MockCheckedActualCall, support = MockSupport; reader; kind of its return",
+            "    type; plain ↦ the MockNamedValue getter it ends in / orDefault ↦ the plain reader used when a return value exists) -/",
+            "def retReaders : List (String × String × String × String × String) :=",
+            "  [ " + ",\n    ".join("(%s, %s, %s, %s, %s)" % tuple(map(lean_str, x)) for x in ret_readers()) + " ]", ""]
     out += ["end Gen.MockEquals", ""]
     return "\n".join(out), stats
 
